@@ -92,9 +92,26 @@ def build_pool(cs, ctx):
             with np.errstate(all="ignore"):
                 x = np.nan_to_num(x, posinf=9, neginf=-9).clip(-1e9, 1e9)
                 x = np.round(x).astype(np.int64)
-        view, guards = pool.carve(x, lay, f"v{j}")
-        pool.add("vec", view, guards, f"vec[n={n},{cls},{dt},{lay}]",
-                 {f"n{n}", cls, dt, lay, f"pairv{j}"})
+        if dt == "f8" and lay == "contig" and n > 0 and \
+                cs.flip(f"v{j}.romap", 20):
+            # input data mapped read-only from a file (np.load(mmap_mode="r"),
+            # np.memmap(mode="r")): a kernel that works in place on what it
+            # is given - legitimate on a private copy - kills the process here
+            import tempfile as _tf
+            import os as _os2
+            fd, fn = _tf.mkstemp(prefix="hyverif-rov-", dir="/dev/shm")
+            _os2.write(fd, np.ascontiguousarray(x, dtype=np.float64).tobytes())
+            _os2.close(fd)
+            view = np.memmap(fn, dtype=np.float64, mode="r", shape=(n,))
+            _os2.unlink(fn)
+            pool.add("vec", view, None,
+                     f"vec[n={n},{cls},{dt},read-only memory map]",
+                     {f"n{n}", cls, dt, lay, f"pairv{j}", "romap"})
+            ctx.hit("probe.input_vector_mapped_read_only")
+        else:
+            view, guards = pool.carve(x, lay, f"v{j}")
+            pool.add("vec", view, guards, f"vec[n={n},{cls},{dt},{lay}]",
+                     {f"n{n}", cls, dt, lay, f"pairv{j}"})
         # a matching aggregation index for this length
         kind = cs.weighted(f"v{j}.agg", [("mono", 5), ("const", 1),
                                          ("unsorted", 1), ("negative", 1),
